@@ -1,4 +1,552 @@
-//! C11 — memory bounded by configuration (stub, filled in later)
-pub fn mem_driver(_args: &[String]) -> i32 {
+//! C11 — memory is bounded by the configuration, not by the stream.
+//!
+//! Oracle: counting global allocator (thread-local live bytes). A measurement brackets the
+//! construction and the workload of one structure on one thread, so the delta is the heap held by
+//! that structure. Thorough tier: the same driver runs under `valgrind --tool=massif` and massif's
+//! peak must agree with the monitor's peak.
+use crate::infra::alloc;
+use crate::infra::flt::*;
+use crate::infra::hashers::{CtlBuildHasher, HMode};
+use crate::infra::rngs::{CtlRng, FastRng};
+use crate::infra::td::*;
+use crate::infra::*;
+use pdatastructs::countminsketch::CountMinSketch;
+use pdatastructs::hyperloglog::HyperLogLog;
+use pdatastructs::reservoirsampling::ReservoirSampling;
+use pdatastructs::topk::cmsheap::CMSHeap;
+use pdatastructs::topk::lossycounter::LossyCounter;
+use serde_json::json;
+
+pub const RULE: &str = "per structure a grid of configurations (cuckoo fingerprint / quotient remainder widths 2,3,5,8,13,16,32,52,64); live heap bytes attributed to the structure (counting allocator, thread-local) measured after construction, after streams of 1e3, 1e4, 1e5 (1e6 thorough) elements, after 100 fill-clear-refill cycles and after 1000 failed inserts/unions; each must stay <= c*ideal(config) + slack with c = 2 (+1 KiB) for exactly-allocated arrays, 4 for Vec-growth structures, <= 160 B/entry for map/tree based ones (LossyCounter against width*(H(ceil(n/width))+1) entries); thorough: massif peak vs monitor peak within 10 %. non-trivial = measurement of a structure that processed >= 1000 elements; distinct = (structure, configuration, stream length) tuples";
+pub const ASSUMPTIONS: &[&str] = &[
+    "requested sizes are counted (allocator rounding and metadata are not)",
+    "the measuring thread allocates nothing else between the bracketing reads except harness scratch that is dropped before the second read",
+];
+
+struct Meas {
+    what: String,
+    ideal: f64,
+    c: f64,
+    slack: f64,
+}
+
+fn check(rep: &mut Report, m: &Meas, stage: &str, bytes: isize, n: usize, wit: serde_json::Value) -> bool {
+    rep.evaluations += 1;
+    let allowed = m.c * m.ideal + m.slack;
+    let ratio = bytes as f64 / m.ideal.max(1.0);
+    let fam = m.what.split('(').next().unwrap_or("?").to_string();
+    rep.max(&format!("bytes_over_ideal/{}", fam), ratio);
+    if n >= 1000 {
+        let mut h = CaseHash::new(&m.what);
+        h.push_str(stage);
+        h.push(n as u64);
+        rep.nontrivial(h.0);
+    }
+    if (bytes as f64) > allowed {
+        rep.violation_mag(
+            format!("C11/{}/{}", fam, stage),
+            format!("{} holds {} heap bytes {} (n = {}) but its configuration implies about {:.0} bytes (allowed {:.0} = {} x ideal + {})", m.what, bytes, stage, n, m.ideal, allowed, m.c, m.slack),
+            json!({"structure": m.what, "stage": stage, "bytes": bytes, "ideal": m.ideal, "allowed": allowed, "n": n, "config": wit}),
+            ratio,
+        );
+        return false;
+    }
+    true
+}
+
+fn stream_lengths(ctx: &Ctx) -> Vec<usize> {
+    let mut v = vec![1000, 10_000, 100_000];
+    if ctx.tier == Tier::Thorough {
+        v.push(1_000_000);
+    }
+    v
+}
+
+// each block: baseline = live(); build; measure; workload; measure ...
+// measure, then hide the harness's own bookkeeping allocations (report maps, sets) from later reads
+macro_rules! chk {
+    ($rep:expr, $m:expr, $stage:expr, $base:ident, $n:expr, $wit:expr) => {{
+        let h = alloc::live() - $base;
+        let p0 = alloc::live();
+        let ok = check($rep, $m, $stage, h, $n, $wit);
+        $base += alloc::live() - p0;
+        ok
+    }};
+}
+
+macro_rules! held {
+    ($base:expr) => {
+        alloc::live() - $base
+    };
+}
+
+fn filters(ctx: &Ctx, which: usize, rep: &mut Report) {
+    let widths = [2usize, 3, 5, 8, 13, 16, 32, 52, 64];
+    let mut r = FastRng::new(ctx.sub_seed(&[which as u64]));
+    let lens = stream_lengths(ctx);
+    match which {
+        0 => {
+            // cuckoo
+            for &l in &widths {
+                for &(bsz, nb) in &[(2usize, 2usize), (4, 64), (4, 1024), (8, 4096)] {
+                    let slots = bsz * nb;
+                    let m = Meas { what: format!("cuckoo(b={},n={},l={})", bsz, nb, l), ideal: (slots * l) as f64 / 8.0, c: 2.0, slack: 1024.0 };
+                    rep.config(&m.what);
+                    let wit = json!({"bucketsize": bsz, "n_buckets": nb, "l_fingerprint": l});
+                    let mut base = alloc::live();
+                    let cfg = CuckooCfg { bucketsize: bsz, n_buckets: nb, l, bh: CtlBuildHasher::new(HMode::Mix, 5), rng: RngSpec::Fast(9) };
+                    let mut f = cfg.make();
+                    if !chk!(rep, &m, "after-construction", base, 0, wit.clone()) {
+                        continue;
+                    }
+                    let mut done = 0usize;
+                    // long streams into a full table: cap evictions per insert so that the run is
+                    // about stream length, not about 500 kicks per failing insert
+                    pdatastructs::verif::set_kick_budget(Some(8));
+                    for &n in &lens {
+                        while done < n {
+                            let _ = Flt::insert(&mut f, r.next());
+                            if done % 3 == 2 {
+                                let _ = Flt::delete(&mut f, r.next());
+                            }
+                            done += 1;
+                        }
+                        chk!(rep, &m, "after-stream", base, n, wit.clone());
+                    }
+                    pdatastructs::verif::set_kick_budget(None);
+                    // failed inserts (table is full by now) and failed unions
+                    let other = {
+                        let mut o = cfg.make();
+                        for _ in 0..slots {
+                            let _ = Flt::insert(&mut o, r.next());
+                        }
+                        o
+                    };
+                    let base2 = alloc::live();
+                    for _ in 0..1000 {
+                        let _ = Flt::insert(&mut f, r.next());
+                    }
+                    for _ in 0..20 {
+                        let _ = Flt::union(&mut f, &other);
+                    }
+                    let grown = alloc::live() - base2;
+                    if grown > 256 {
+                        rep.violation(format!("C11/cuckoo/failed-operations-grow"), format!("{}: 1000 failed inserts + 20 unions raised the live heap by {} bytes", m.what, grown), wit.clone());
+                    }
+                    drop(other);
+                    // fill -> clear -> refill cycles
+                    let mut level = 0isize;
+                    for cyc in 0..100 {
+                        Flt::clear(&mut f);
+                        for _ in 0..slots.min(2000) {
+                            let _ = Flt::insert(&mut f, r.next());
+                        }
+                        let h = held!(base);
+                        if cyc == 0 {
+                            level = h;
+                        } else if h as f64 > level as f64 * 1.05 + 256.0 {
+                            rep.violation("C11/cuckoo/clear-refill-grows", format!("{}: heap grew from {} to {} bytes over {} clear/refill cycles", m.what, level, h, cyc + 1), wit.clone());
+                            break;
+                        }
+                    }
+                    chk!(rep, &m, "after-clear-refill-cycles", base, done, wit.clone());
+                }
+            }
+        }
+        1 => {
+            // quotient
+            for &rb in &widths {
+                for &q in &[2usize, 8, 12, 15] {
+                    if q + rb > 64 {
+                        continue;
+                    }
+                    let slots = 1usize << q;
+                    let m = Meas { what: format!("quotient(q={},r={})", q, rb), ideal: (slots * (rb + 3)) as f64 / 8.0, c: 2.0, slack: 1024.0 };
+                    rep.config(&m.what);
+                    let wit = json!({"bits_quotient": q, "bits_remainder": rb});
+                    let mut base = alloc::live();
+                    let cfg = QfCfg { q, r: rb, bh: CtlBuildHasher::new(HMode::Mix, 5) };
+                    let mut f = cfg.make();
+                    if !chk!(rep, &m, "after-construction", base, 0, wit.clone()) {
+                        continue;
+                    }
+                    let mut done = 0usize;
+                    // an insert into a full table walks the whole (single) cluster: cap that work
+                    let cap = slots + ctx.tier.pick(40_000_000, 400_000_000) / slots;
+                    for &n in &lens {
+                        let n = n.min(cap);
+                        while done < n {
+                            let _ = Flt::insert(&mut f, r.next());
+                            done += 1;
+                        }
+                        chk!(rep, &m, "after-stream", base, n, wit.clone());
+                    }
+                    let other = {
+                        let mut o = cfg.make();
+                        for _ in 0..slots {
+                            let _ = Flt::insert(&mut o, r.next());
+                        }
+                        o
+                    };
+                    let base2 = alloc::live();
+                    for _ in 0..1000.min(40_000_000 / slots) {
+                        let _ = Flt::insert(&mut f, r.next());
+                    }
+                    // a union of two full tables costs slots^2 slot visits
+                    for _ in 0..(40_000_000 / (slots * slots)).clamp(1, 20) {
+                        let _ = Flt::union(&mut f, &other);
+                    }
+                    let grown = alloc::live() - base2;
+                    if grown > 256 {
+                        rep.violation("C11/quotient/failed-operations-grow", format!("{}: 1000 failed inserts + 20 failed unions raised the live heap by {} bytes", m.what, grown), wit.clone());
+                    }
+                    drop(other);
+                    let mut level = 0isize;
+                    for cyc in 0..100 {
+                        Flt::clear(&mut f);
+                        for _ in 0..slots.min(2000) {
+                            let _ = Flt::insert(&mut f, r.next());
+                        }
+                        let h = held!(base);
+                        if cyc == 0 {
+                            level = h;
+                        } else if h as f64 > level as f64 * 1.05 + 256.0 {
+                            rep.violation("C11/quotient/clear-refill-grows", format!("{}: heap grew from {} to {} bytes over {} clear/refill cycles", m.what, level, h, cyc + 1), wit.clone());
+                            break;
+                        }
+                    }
+                    chk!(rep, &m, "after-clear-refill-cycles", base, done, wit.clone());
+                }
+            }
+        }
+        _ => {
+            // bloom
+            for &(mbits, k) in &[(64usize, 1usize), (1000, 3), (100_000, 7), (8_000_000, 5)] {
+                let m = Meas { what: format!("bloom(m={},k={})", mbits, k), ideal: mbits as f64 / 8.0, c: 2.0, slack: 1024.0 };
+                rep.config(&m.what);
+                let wit = json!({"m": mbits, "k": k});
+                let mut base = alloc::live();
+                let cfg = BloomCfg { m: mbits, k, bh: CtlBuildHasher::new(HMode::Mix, 5) };
+                let mut f = cfg.make();
+                chk!(rep, &m, "after-construction", base, 0, wit.clone());
+                let mut done = 0usize;
+                for &n in &lens {
+                    while done < n {
+                        let _ = Flt::insert(&mut f, r.next());
+                        done += 1;
+                    }
+                    chk!(rep, &m, "after-stream", base, n, wit.clone());
+                }
+                let other = cfg.make();
+                for _ in 0..100 {
+                    Flt::clear(&mut f);
+                    let _ = Flt::insert(&mut f, r.next());
+                    let _ = Flt::union(&mut f, &other);
+                }
+                chk!(rep, &m, "after-clear-union-cycles", base, done, wit.clone());
+            }
+        }
+    }
+}
+
+fn sketches(ctx: &Ctx, which: usize, rep: &mut Report) {
+    let mut r = FastRng::new(ctx.sub_seed(&[100 + which as u64]));
+    let lens = stream_lengths(ctx);
+    match which {
+        0 => {
+            // CMS, several counter types
+            macro_rules! cms {
+                ($t:ty, $name:expr) => {
+                    for &(w, d) in &[(1usize, 1usize), (272, 3), (28, 10), (4096, 4)] {
+                        let m = Meas { what: format!("cms<{}>(w={},d={})", $name, w, d), ideal: (w * d * std::mem::size_of::<$t>()) as f64, c: 2.0, slack: 1024.0 };
+                        rep.config(&m.what);
+                        let wit = json!({"w": w, "d": d, "counter": $name});
+                        let mut base = alloc::live();
+                        let mut c: CountMinSketch<u64, $t, CtlBuildHasher> = CountMinSketch::with_params_and_hasher(w, d, CtlBuildHasher::new(HMode::Mix, 3));
+                        chk!(rep, &m, "after-construction", base, 0, wit.clone());
+                        let mut done = 0usize;
+                        for &n in &lens {
+                            if (n as u128) > <$t>::MAX as u128 {
+                                break;
+                            }
+                            while done < n {
+                                c.add(&r.next());
+                                done += 1;
+                            }
+                            chk!(rep, &m, "after-stream", base, n, wit.clone());
+                        }
+                        for _ in 0..100 {
+                            c.clear();
+                            c.add(&r.next());
+                            let o = c.clone();
+                            c.clear();
+                            c.merge(&o);
+                        }
+                        chk!(rep, &m, "after-clear-merge-cycles", base, done, wit.clone());
+                    }
+                };
+            }
+            cms!(u8, "u8");
+            cms!(u32, "u32");
+            cms!(u64, "u64");
+            cms!(usize, "usize");
+        }
+        1 => {
+            for b in [4usize, 8, 12, 16, 18] {
+                let m = Meas { what: format!("hll(b={})", b), ideal: (1usize << b) as f64, c: 2.0, slack: 1024.0 };
+                rep.config(&m.what);
+                let wit = json!({"b": b});
+                let mut base = alloc::live();
+                let mut h: HyperLogLog<u64, CtlBuildHasher> = HyperLogLog::with_hash(b, CtlBuildHasher::new(HMode::Mix, 3));
+                chk!(rep, &m, "after-construction", base, 0, wit.clone());
+                let mut done = 0usize;
+                for &n in &lens {
+                    while done < n {
+                        h.add(&r.next());
+                        done += 1;
+                    }
+                    let _ = h.count();
+                    chk!(rep, &m, "after-stream", base, n, wit.clone());
+                }
+                for _ in 0..100 {
+                    h.clear();
+                    h.add(&r.next());
+                    let o = h.clone();
+                    h.merge(&o);
+                }
+                chk!(rep, &m, "after-clear-merge-cycles", base, done, wit.clone());
+            }
+        }
+        2 => {
+            // T-digest
+            for sf in ALL_SF {
+                for &(delta, backlog) in &[(1.1f64, 0usize), (10.0, 10), (100.0, 1000), (1000.0, 0), (300.0, 5000)] {
+                    let m = Meas { what: format!("tdigest({},delta={},backlog={})", sf.name(), delta, backlog), ideal: 16.0 * (delta + 3.0 + backlog as f64 + 1.0), c: 4.0, slack: 1024.0 };
+                    rep.config(&m.what);
+                    let wit = json!({"scale": sf.name(), "delta": delta, "backlog": backlog});
+                    let mut base = alloc::live();
+                    let mut t = make_td(sf, delta, backlog);
+                    let mut done = 0usize;
+                    for &n in &lens {
+                        // with a tiny backlog every insert triggers a merge of ~delta centroids
+                        let cost = n as f64 * delta / (backlog as f64 + 1.0);
+                        if cost > ctx.tier.pick(2e7, 4e8) {
+                            continue;
+                        }
+                        while done < n {
+                            t.insert(r.normal() * 10.0 + (done % 100) as f64);
+                            if done % 5000 == 4999 {
+                                let _ = t.quantile(0.5);
+                            }
+                            done += 1;
+                        }
+                        // quiescent point (backlog possibly non-empty)
+                        chk!(rep, &m, "after-stream", base, n, wit.clone());
+                        let _ = t.count();
+                        chk!(rep, &m, "after-read", base, n, wit.clone());
+                    }
+                    for _ in 0..(if delta > 500.0 && backlog == 0 { 10 } else { 100 }) {
+                        t.clear();
+                        for j in 0..(delta as usize * 3 + backlog + 10) {
+                            t.insert(j as f64);
+                        }
+                    }
+                    chk!(rep, &m, "after-clear-refill-cycles", base, done, wit.clone());
+                    rep.max("tdigest_final_centroids_minus_delta", t.n_centroids() as f64 - delta);
+                }
+            }
+        }
+        3 => {
+            for &k in &[1usize, 10, 1000, 100_000] {
+                let m = Meas { what: format!("reservoir(k={})", k), ideal: (k * std::mem::size_of::<u64>()) as f64, c: 4.0, slack: 1024.0 };
+                rep.config(&m.what);
+                let wit = json!({"k": k});
+                let mut base = alloc::live();
+                let mut s: ReservoirSampling<u64, CtlRng> = ReservoirSampling::new(k, CtlRng::fast(1));
+                let mut done = 0usize;
+                for &n in &lens {
+                    while done < n {
+                        s.add(done as u64);
+                        done += 1;
+                    }
+                    chk!(rep, &m, "after-stream", base, n, wit.clone());
+                }
+                for _ in 0..100 {
+                    s.clear();
+                    for j in 0..(5 * k).min(50_000) {
+                        s.add(j as u64);
+                    }
+                }
+                chk!(rep, &m, "after-clear-refill-cycles", base, done, wit.clone());
+            }
+        }
+        4 => {
+            for &k in &[1usize, 10, 100, 1000] {
+                for &(w, d) in &[(16usize, 4usize), (272, 3)] {
+                    let m = Meas { what: format!("cmsheap(k={},w={},d={})", k, w, d), ideal: 160.0 * k as f64 + (w * d * 8) as f64, c: 1.0, slack: 2048.0 };
+                    rep.config(&m.what);
+                    let wit = json!({"k": k, "w": w, "d": d});
+                    let mut base = alloc::live();
+                    let mut h: CMSHeap<u64> = CMSHeap::new(k, CountMinSketch::with_params(w, d));
+                    let mut done = 0usize;
+                    for &n in &lens {
+                        while done < n {
+                            // rotating popularity so that displacements keep happening
+                            let hot = (done / 500) as u64;
+                            h.add(if r.chance(0.5) { hot * 1000 + r.below(20) } else { r.next() });
+                            done += 1;
+                        }
+                        chk!(rep, &m, "after-stream", base, n, wit.clone());
+                    }
+                    for _ in 0..100 {
+                        h.clear();
+                        for j in 0..(3 * k).min(3000) {
+                            h.add(j as u64);
+                        }
+                    }
+                    chk!(rep, &m, "after-clear-refill-cycles", base, done, wit.clone());
+                }
+            }
+        }
+        _ => {
+            for &width in &[1usize, 10, 100, 1000] {
+                for kind in 0..2 {
+                    let what = format!("lossy(width={},{})", width, if kind == 0 { "all-distinct" } else { "zipf" });
+                    rep.config(&what);
+                    let wit = json!({"width": width, "stream": if kind == 0 { "all distinct" } else { "zipf" }});
+                    let mut base = alloc::live();
+                    let mut lc: LossyCounter<u64> = LossyCounter::with_width(width);
+                    let mut done = 0usize;
+                    for &n in &lens {
+                        while done < n {
+                            let x = if kind == 0 { done as u64 } else { ((1.0 - r.f64()).powf(-1.0 / 1.1)) as u64 };
+                            lc.add(x);
+                            done += 1;
+                        }
+                        let hn = {
+                            let mm = n.div_ceil(width);
+                            (1..=mm.min(2_000_000)).map(|i| 1.0 / i as f64).sum::<f64>()
+                        };
+                        let entries = width as f64 * (hn + 1.0);
+                        let m = Meas { what: what.clone(), ideal: 160.0 * entries, c: 1.0, slack: 2048.0 };
+                        chk!(rep, &m, "after-stream", base, n, wit.clone());
+                    }
+                    lc.clear();
+                    let m = Meas { what: what.clone(), ideal: 0.0, c: 1.0, slack: 2048.0 };
+                    chk!(rep, &m, "after-clear", base, done, wit.clone());
+                }
+            }
+        }
+    }
+}
+
+// ---------------------------------------------------------------------------------------------
+// massif cross-check (thorough)
+
+/// `pdsmon mem <kind> <a> <b> <c>`: build one structure, run a small workload, print the
+/// monitor's peak. Used under valgrind massif.
+pub fn mem_driver(args: &[String]) -> i32 {
+    let kind = args.first().map(|s| s.as_str()).unwrap_or("");
+    let a: usize = args.get(1).and_then(|s| s.parse().ok()).unwrap_or(0);
+    let b: usize = args.get(2).and_then(|s| s.parse().ok()).unwrap_or(0);
+    let c: usize = args.get(3).and_then(|s| s.parse().ok()).unwrap_or(0);
+    let mut r = FastRng::new(42);
+    alloc::reset_peak();
+    let mut base = alloc::live();
+    match kind {
+        "cuckoo" => {
+            let mut f = CuckooCfg { bucketsize: a, n_buckets: b, l: c, bh: CtlBuildHasher::new(HMode::Mix, 5), rng: RngSpec::Fast(9) }.make();
+            for _ in 0..3000 {
+                let _ = Flt::insert(&mut f, r.next());
+            }
+            println!("MONITOR live={} peak={}", alloc::live() - base, alloc::peak() - base);
+        }
+        "quotient" => {
+            let mut f = QfCfg { q: a, r: b, bh: CtlBuildHasher::new(HMode::Mix, 5) }.make();
+            for _ in 0..3000 {
+                let _ = Flt::insert(&mut f, r.next());
+            }
+            println!("MONITOR live={} peak={}", alloc::live() - base, alloc::peak() - base);
+        }
+        "hll" => {
+            let mut h: HyperLogLog<u64, CtlBuildHasher> = HyperLogLog::with_hash(a, CtlBuildHasher::new(HMode::Mix, 3));
+            for _ in 0..3000 {
+                h.add(&r.next());
+            }
+            println!("MONITOR live={} peak={}", alloc::live() - base, alloc::peak() - base);
+        }
+        "bloom" => {
+            let mut f = BloomCfg { m: a, k: b, bh: CtlBuildHasher::new(HMode::Mix, 5) }.make();
+            for _ in 0..3000 {
+                let _ = Flt::insert(&mut f, r.next());
+            }
+            println!("MONITOR live={} peak={}", alloc::live() - base, alloc::peak() - base);
+        }
+        _ => {
+            eprintln!("mem: unknown kind");
+            return 3;
+        }
+    }
     0
+}
+
+fn massif_crosscheck(rep: &mut Report) {
+    let exe = format!("{}/target/monrel/pdsmon", crate::VERIF_DIR);
+    let cases: Vec<Vec<String>> = vec![
+        vec!["cuckoo".into(), "4".into(), "65536".into(), "8".into()],
+        vec!["cuckoo".into(), "4".into(), "65536".into(), "32".into()],
+        vec!["quotient".into(), "18".into(), "13".into(), "0".into()],
+        vec!["hll".into(), "18".into(), "0".into(), "0".into()],
+        vec!["bloom".into(), "16000000".into(), "5".into(), "0".into()],
+    ];
+    for case in cases {
+        let out_file = format!("/tmp/pdsmon-massif-{}-{}.out", std::process::id(), case.join("-"));
+        let res = std::process::Command::new("valgrind")
+            .arg("--tool=massif")
+            .arg("--pages-as-heap=no")
+            .arg(format!("--massif-out-file={}", out_file))
+            .arg(&exe)
+            .arg("mem")
+            .args(&case)
+            .output();
+        let Ok(o) = res else {
+            rep.inconclusive.push("valgrind could not be started".into());
+            return;
+        };
+        let stdout = String::from_utf8_lossy(&o.stdout).to_string();
+        let mon_peak: Option<f64> = stdout.lines().find(|l| l.starts_with("MONITOR")).and_then(|l| l.split("peak=").nth(1)).and_then(|s| s.trim().parse().ok());
+        let massif = std::fs::read_to_string(&out_file).unwrap_or_default();
+        let _ = std::fs::remove_file(&out_file);
+        let massif_peak: Option<f64> = massif.lines().filter_map(|l| l.strip_prefix("mem_heap_B=")).filter_map(|s| s.parse::<f64>().ok()).fold(None, |a: Option<f64>, b| Some(a.map_or(b, |x| x.max(b))));
+        rep.evaluations += 1;
+        match (mon_peak, massif_peak) {
+            (Some(mp), Some(vp)) => {
+                let diff = (mp - vp).abs();
+                rep.max("massif_vs_monitor_relative_difference", diff / vp.max(1.0));
+                rep.count("massif_crosschecks", 1);
+                if diff > 0.10 * vp + 65536.0 {
+                    rep.violation("C11/massif-disagrees-with-monitor", format!("case {:?}: monitor peak {} vs massif peak {}", case, mp, vp), json!({"case": case}));
+                }
+            }
+            _ => rep.inconclusive.push(format!("massif cross-check produced no numbers for {:?} (exit {:?})", case, o.status.code())),
+        }
+    }
+}
+
+pub fn run(ctx: &Ctx) -> Report {
+    // 3 filter families + 6 sketch families, one thread each (measurements are thread-local)
+    let mut rep = par_run(ctx, 9, |i, rep| {
+        let t0 = std::time::Instant::now();
+        if i < 3 {
+            filters(ctx, i, rep)
+        } else {
+            sketches(ctx, i - 3, rep)
+        }
+        rep.count(&format!("wall_ms/family{}", i), t0.elapsed().as_millis() as u64);
+    });
+    if ctx.tier == Tier::Thorough {
+        massif_crosscheck(&mut rep);
+    }
+    rep.sample(json!({"structure": "cuckoo(b=4,n=1024,l=2)", "ideal_bytes": 1024, "measured": "after construction, after 1e3/1e4/1e5 inserts+deletes, after 1000 failed inserts + 20 unions, after 100 clear/refill cycles"}));
+    rep
 }
